@@ -111,6 +111,12 @@ def h_buf_new(w, st, rec):
     v = dec(rec["value"])
     if rec.get("as") == "list":
         v = v.tolist()
+    elif rec.get("as") == "0d" and isinstance(v, np.ndarray) and v.size == 1:
+        v = np.array(v.ravel()[0])          # a 0-d array: np.atleast_1d / atleast_2d give a VIEW of it
+        w.probes["buf.lower_rank"] += 1
+    elif rec.get("as") == "1d" and isinstance(v, np.ndarray) and v.size == 1:
+        v = v.reshape(1).copy()
+        w.probes["buf.lower_rank"] += 1
     elif rec.get("as") == "view" and isinstance(v, np.ndarray) and v.ndim in (1, 2) and v.size:
         # a non-contiguous view into a larger array the caller owns
         base = np.zeros(tuple(2 * d for d in v.shape), dtype=v.dtype)
@@ -933,8 +939,17 @@ def gen_model(g, gs, cfg, ops, c, invalid=False):
         cov = G.rand_cov(g, p, singular=g.random() < 0.25)
         if invalid:
             mean = G.rand_vec(g, p + 1, -2, 2)
-        rec["mean"] = arg(mean)
-        rec["cov"] = arg(cov)
+        if p == 1 and not invalid and g.random() < 0.5:
+            # a univariate distribution given by lower-rank arrays
+            bm, _ = new_buf(g, gs, ops, c, mean, False)
+            ops[-1]["as"] = "0d"
+            bc, _ = new_buf(g, gs, ops, c, cov, False)
+            ops[-1]["as"] = g.choice(["0d", "1d"])
+            bufs.extend([bm, bc])
+            rec["mean"], rec["cov"] = {"__ref__": bm}, {"__ref__": bc}
+        else:
+            rec["mean"] = arg(mean)
+            rec["cov"] = arg(cov)
         if g.random() < 0.2:
             rec["check_valid"] = g.choice(["raise", "warn"])
             if "seam.raise" in cfg["faults"] and g.random() < 0.3:
@@ -1288,6 +1303,17 @@ def make_variant(g, rec):
             a["y"] = g.choice(Xs)
         else:
             return None
+    elif method == "sample" and g.random() < 0.35 and any(
+            isinstance(a.get(k), list) and a.get(k) for k in ("do", "shift", "noise")):
+        # the same targets and parameters under other intervention kinds
+        kinds = ["do", "shift", "noise"]
+        perm = kinds[:]
+        while perm == kinds:
+            g.shuffle(perm)
+        old = {k: a.get(k, "omit") for k in kinds}
+        for k1, k2 in zip(kinds, perm):
+            a[k2] = old[k1]
+        a.pop("same_dict", None)
     elif method == "sample":
         changed = False
         for kind in ("do", "shift", "noise"):
@@ -1367,7 +1393,7 @@ REQUIRED_PROBES = ["iv.do.non_source", "iv.shift.non_source", "iv.noise.non_sour
                    "all_dags.undirected_edge", "topological_ordering.with_edges", "split_data.n>=2",
                    "op_after_failed_op_same_model", "natural_LinAlgError", "history.first_vs_later",
                    "history.aged_vs_twin", "sweep.fault_positions", "sweep.utils", "obs_law.checked", "obs_law.checked:anm", "obs_law.checked:nd", "buf.view", "gc.model_dropped",
-                   "gc.model_id_reused", "two_models_from_one_caller_array", "model_from_generator_output",
+                   "gc.model_id_reused", "two_models_from_one_caller_array", "model_from_generator_output", "buf.lower_rank",
                    "nd.check_valid"]
 
 
